@@ -956,4 +956,11 @@ def r10(F, R):
     R.floor(1)
 
 
-RULES = [("R10", r10, ["all", "json"]), ("R9", r9, None), ("R8", r8, ["all", "junit"]), ("R7", r7, ["all", "json"]), ("R6", r6, ["all", "json"]), ("R5", r5, ["all", "junit"]), ("R1", r1, None), ("R2", r2, None), ("R3", r3, None), ("R4", r4, None)]
+def r11(F, R):
+    """Terminal summary: its scenario totals agree with the entries printed — a scenario is counted in exactly one of passed / skipped /
+    failed (= C12.R7: a classified scenario keeps its marker, `passed` only where no marker is found)."""
+    from . import c12
+    c12.r7(F, R)
+
+
+RULES = [("R11", r11, None), ("R10", r10, ["all", "json"]), ("R9", r9, None), ("R8", r8, ["all", "junit"]), ("R7", r7, ["all", "json"]), ("R6", r6, ["all", "json"]), ("R5", r5, ["all", "junit"]), ("R1", r1, None), ("R2", r2, None), ("R3", r3, None), ("R4", r4, None)]
